@@ -18,15 +18,75 @@ Proof.
   - split; [discriminate|]. intros [[tok H] _]. discriminate.
 Qed.
 
-(* the model accepts exactly what the statement calls valid (jwt_valid of run/RunC51.v) *)
-Lemma jwt_accept_is_valid auth mal alg c now keys :
+(* time claims that jwt-go reads as intended: numbers different from 0 (or absent) *)
+Definition claim_strict (c : claim) : bool :=
+  match c with CAbsent => true | CNum v => negb (v =? 0) | CBad => false end.
+Definition claims_strict (c : claims) : bool :=
+  claim_strict (c_exp c) && claim_strict (c_iat c) && claim_strict (c_nbf c).
+Lemma exp_strict c now : claim_strict c = true ->
+  match c with CAbsent => true | CNum e => now <=? e | CBad => false end = exp_ok c now.
+Proof.
+  destruct c as [|v|]; cbn [claim_strict exp_ok]; [reflexivity| |discriminate].
+  intros H. apply negb_true_iff in H. rewrite H. reflexivity.
+Qed.
+Lemma from_strict c now : claim_strict c = true ->
+  match c with CAbsent => true | CNum i => i <=? now | CBad => false end = from_ok c now.
+Proof.
+  destruct c as [|v|]; cbn [claim_strict from_ok]; [reflexivity| |discriminate].
+  intros H. apply negb_true_iff in H. rewrite H. reflexivity.
+Qed.
+Lemma claims_strict_valid c now : claims_strict c = true -> claims_valid c now = claims_ok c now.
+Proof.
+  unfold claims_strict, claims_valid, claims_ok. rewrite !andb_true_iff. intros [[H1 H2] H3].
+  rewrite (exp_strict _ now H1), (from_strict _ now H2), (from_strict _ now H3). reflexivity.
+Qed.
+Lemma exp_valid_ok c now : match c with CAbsent => true | CNum e => now <=? e | CBad => false end = true -> exp_ok c now = true.
+Proof. destruct c as [|v|]; cbn [exp_ok]; [reflexivity| |discriminate]. intros H. rewrite H. destruct (v =? 0); reflexivity. Qed.
+Lemma from_valid_ok c now : match c with CAbsent => true | CNum i => i <=? now | CBad => false end = true -> from_ok c now = true.
+Proof. destruct c as [|v|]; cbn [from_ok]; [reflexivity| |discriminate]. intros H. rewrite H. destruct (v =? 0); reflexivity. Qed.
+Lemma claims_valid_ok c now : claims_valid c now = true -> claims_ok c now = true.
+Proof.
+  unfold claims_valid, claims_ok. rewrite !andb_true_iff. intros [[H1 H2] H3].
+  rewrite (exp_valid_ok _ now H1), (from_valid_ok _ now H2), (from_valid_ok _ now H3). auto.
+Qed.
+
+(* shape shared by the model's decision and the statement's validity predicate *)
+Lemma jwt_shape auth mal alg c now keys :
+  jwt_accept auth mal alg c now keys =
+  match get_token auth with
+  | None => false
+  | Some _ => negb mal && claims_ok c now
+              && existsb (fun k => ((k_alg k =? 0) || (k_alg k =? alg)) && alg_compat alg (k_kty k) && k_sig_ok k) keys
+  end.
+Proof.
+  unfold jwt_accept, validate_token, key_alg_ok. destruct (get_token auth); [|reflexivity].
+  destruct mal; [reflexivity|]. cbn [negb andb].
+  induction keys as [|k r IH]; cbn [existsb]; [rewrite andb_false_r; reflexivity|].
+  rewrite IH. destruct ((k_alg k =? 0) || (k_alg k =? alg)); destruct (alg_compat alg (k_kty k));
+    destruct (k_sig_ok k); destruct (claims_ok c now); cbn [andb orb]; reflexivity.
+Qed.
+
+(* the statement's reading of the time claims fails for zero / non-numeric claims: *)
+Lemma jwt_time_refuted :
+  exists auth alg c now keys,
+    jwt_accept auth false alg c now keys = true /\ jwt_valid auth false alg c now keys = false.
+Proof.
+  exists (BEARER ++ [32; 120]), 1, {| c_exp := CNum 0; c_iat := CAbsent; c_nbf := CAbsent |}, 100,
+         [{| k_kty := 0; k_alg := 1; k_sig_ok := true |}].
+  split; vm_compute; reflexivity.
+Qed.
+(* for all other tokens the module accepts exactly what the statement calls valid *)
+Lemma jwt_accept_is_valid auth mal alg c now keys : claims_strict c = true ->
   jwt_valid auth mal alg c now keys = jwt_accept auth mal alg c now keys.
 Proof.
-  unfold jwt_valid, jwt_accept, validate_token, key_alg_ok. destruct (get_token auth); [|reflexivity].
-  destruct mal; [reflexivity|]. cbn [negb andb].
-  induction keys as [|k r IH]; cbn [existsb]; [apply andb_false_r|].
-  rewrite <- IH. destruct ((k_alg k =? 0) || (k_alg k =? alg)); destruct (alg_compat alg (k_kty k));
-    destruct (k_sig_ok k); destruct (claims_ok c now); cbn [andb orb]; reflexivity.
+  intros Hs. rewrite jwt_shape. unfold jwt_valid. rewrite (claims_strict_valid c now Hs). reflexivity.
+Qed.
+(* and a valid request is always forwarded *)
+Lemma jwt_valid_accepted auth mal alg c now keys :
+  jwt_valid auth mal alg c now keys = true -> jwt_accept auth mal alg c now keys = true.
+Proof.
+  rewrite jwt_shape. unfold jwt_valid. destruct (get_token auth); [|discriminate].
+  rewrite !andb_true_iff. intros [[H1 H2] H3]. rewrite (claims_valid_ok c now H2). auto.
 Qed.
 
 Lemma securelink_iff he expires checksum digest now :
@@ -80,7 +140,7 @@ Proof.
 Qed.
 
 Lemma C51_example_lemma :
-  jwt_accept (BEARER ++ [32; 120]) false 1 {| c_exp := Some 99; c_iat := None; c_nbf := None |} 100
+  jwt_accept (BEARER ++ [32; 120]) false 1 {| c_exp := CNum 99; c_iat := CAbsent; c_nbf := CAbsent |} 100
              [{| k_kty := 0; k_alg := 1; k_sig_ok := true |}] = false /\
   secure_link false [] (firstn 21 (b64url (repeat 7 16))) (repeat 7 16) 0 = 4 /\
   secure_link false [] (b64url (repeat 7 16)) (repeat 7 16) 0 = 0.
@@ -94,9 +154,14 @@ Proof. destruct x; reflexivity. Qed.
 
 Lemma prop_of_model_jwt auth mal alg cl now ks extra c keys :
   dec_claims cl = Some c -> dec_keys ks = Some keys ->
-  let i := VL [VZ 2; VB auth; VZ mal; VZ alg; cl; VZ now; ks; extra] in prop_C51 i (run_C51 i) = true.
+  let i := VL [VZ 2; VB auth; VZ mal; VZ alg; cl; VZ now; ks; extra] in
+  kf_C51 i = 0 -> prop_C51 i (run_C51 i) = true.
 Proof.
-  intros Hc Hk. cbn [prop_C51 run_C51]. rewrite Hc, Hk. rewrite jwt_accept_is_valid. apply is_verdict_refl.
+  intros Hc Hk. cbn [prop_C51 run_C51 kf_C51]. rewrite Hc, Hk.
+  pose proof (jwt_valid_accepted auth (b mal) alg c now keys) as Hva.
+  destruct (jwt_valid auth (b mal) alg c now keys) eqn:Ev.
+  - rewrite (Hva eq_refl). intros _. apply is_verdict_refl.
+  - destruct (jwt_accept auth (b mal) alg c now keys); cbn [negb andb]; [discriminate|]. intros _. apply is_verdict_refl.
 Qed.
 
 Lemma secure_link_range he expires checksum digest now :
